@@ -8,8 +8,9 @@ from .. import translate_schema as TS
 PROP = "C07"
 COQ_EXTRA = ["theories/Model/ConvertCases.vo", "theories/Gen/SchemaS.vo"]
 IMPORTS = ["Model.Schema", "Model.Convert", "Model.ConvertCases", "Gen.SchemaGen", "Gen.SchemaS"]
-PARTIAL = ["the theorem is about Model/Convert.v (from_etree/_convert/groom of models/base.py); the wire-level clause (XML and SGML renderings) composes it with the tokenizer, "
-           "which this check exercises on the implementation only (C02 proves the tokenizer side)",
+PARTIAL = ["the theorem is about Model/Convert.v (from_etree/_convert/groom of models/base.py); the wire-level clause is "
+           "unknown_insert_invisible_on_the_wire (composition with C02's parse_render_faithful: any renderings of the clean and of the contaminated document); the check also "
+           "exercises XML and SGML renderings on the implementation",
            "SGML renderings give unknown EMPTY elements their end tag (an end-tag-less empty element is syntactically an open aggregate; DESIGN.md section 9)"]
 MANIFEST = {
     "engine": "Schema",
